@@ -1841,6 +1841,37 @@ def oracle_sched(project, obs, v):
     return res
 
 
+def _sched_fx(name, scope, setup=()):
+    return {"gen": True, "name": name, "names": None, "params": [], "per_thread": True, "scope": scope, "setup": list(setup), "teardown": []}
+
+
+def _sched_test(name, rank, fixtures, script):
+    return {"deps": [], "disabled": False, "fixtures": list(fixtures), "name": name, "rank": rank, "script": list(script)}
+
+
+def _sched_suite(name, rank, tests, **kw):
+    s = {"disabled": False, "injected": [], "name": name, "rank": rank, "setup_suite": None, "setup_test": None, "suites": [],
+         "teardown_suite": None, "teardown_test": None, "tests": tests}
+    s.update(kw)
+    return s
+
+
+# keyboard interrupt while a test holds its instance of a SESSION-scoped per-thread fixture and another worker is idle: the
+# session teardown (teardown_factory) must wait for that test (minimised failing inputs of the seeded change C15-12; they hold
+# on the unchanged tree)
+SCHED_CORPUS = [
+    {"fault": None, "gseed": 14638659, "interrupt": ["quiescent", 2], "strategy": "random",
+     "project": {"fixtures": [_sched_fx("f0", "session")], "force_disabled": False, "nb_threads": 2, "stop_on_failure": False,
+                 "suites": [_sched_suite("s1", 2, [_sched_test("t1", 2, ["f0"], [{"a": "gate"}])],
+                                         setup_suite={"params": [], "script": [{"a": "thread", "name": "worker", "script": [{"a": "gate"}]}]})]}},
+    {"fault": None, "gseed": 11567555, "interrupt": ["quiescent", 4], "strategy": "random",
+     "project": {"fixtures": [_sched_fx("f1", "session", [{"a": "gate"}])], "force_disabled": False, "nb_threads": 3, "stop_on_failure": False,
+                 "suites": [_sched_suite("s0", 1, [_sched_test("check_1.5", 1, [], [{"a": "gate"}]),
+                                                   _sched_test("t1", 2, ["f1"], [{"a": "gate"}]),
+                                                   _sched_test("t2", 3, ["f1"], [])])]}},
+]
+
+
 def _sched_stream():
     from props._runcommon import PropRunStream
     from run import gen as RG
@@ -1857,11 +1888,12 @@ def _sched_stream():
         oracles = ()
         threads = (2, 2, 3, 4, 8)
         strategies = ("fifo", "lifo", "random", "random")
-        quick_cases = 110
-        quick_seconds = 22
+        p_interrupt = 0.4          # Ctrl-C (while the main loop waits for a completion / at a quiescent point): interrupted runs are ordinary cases
+        quick_cases = 170
+        quick_seconds = 32
         thorough_cases = 2500
         thorough_seconds = 300
-        corpus = []
+        corpus = SCHED_CORPUS
 
         def gen(self, rng, i):
             case = super().gen(rng, i)
@@ -1887,6 +1919,22 @@ def _sched_stream():
         def features(self, case, obs):
             f = super().features(case, obs)
             p = case["project"]
+            tr = obs.get("trace") or []
+            k = next((j for j, r in enumerate(tr) if r[0] == "interrupt"), None)
+            if k is not None:
+                byname0 = RG.fixtures_by_name(p)
+                open_bodies = {}
+                for r in tr[:k]:
+                    if r[0] == "user" and r[2][0] == "body":
+                        if r[3] == "enter":
+                            open_bodies[(r[1], tuple(r[2][1]))] = r[4] or {}
+                        elif r[3] in ("exit", "raise"):
+                            open_bodies.pop((r[1], tuple(r[2][1])), None)
+                held = {byname0[n]["scope"] for vals in open_bodies.values() for n in vals if n in byname0 and byname0[n]["per_thread"]}
+                for sc in sorted(held):
+                    f.append("interrupt-while-a-test-holds-a-%s-scoped-per-thread-instance" % sc)
+                if len(open_bodies) >= 1 and p["nb_threads"] > len(open_bodies) and "session" in held:
+                    f.append("interrupt-with-an-idle-worker-and-a-session-scoped-instance-in-use")
             if p["force_disabled"] and any(dis for *_, dis in RG.iter_tests(p)):
                 f.append("disabled-tests-forced")
                 byname = RG.fixtures_by_name(p)
